@@ -123,6 +123,28 @@ Qed.
 Definition single (s : state) (o : nat) : Prop :=
   match get_obj s o with Some ob => o_kind P G C ob <> KSeq | None => False end.
 
+Lemma kind_set_uv (ob : obj) u v : o_kind P G C (set_uv P G C ob u v) = o_kind P G C ob.
+Proof. destruct ob; reflexivity. Qed.
+Lemma u_set_uv (ob : obj) u v : o_u P G C (set_uv P G C ob u v) = u.
+Proof. destruct ob; reflexivity. Qed.
+
+Lemma held_shape s o ob p g sg :
+  get_obj s o = Some ob -> held s o = Some (p, g, sg) -> g = o_grid P G C ob /\ sg = sign_of P G C ob.
+Proof.
+  intros Hg H. unfold TransformState.held in H. fold (get_obj s o) in H. rewrite Hg in H.
+  destruct (get_params s ob) as [[| r' ip | f | o']|]; try discriminate.
+  1, 2: inversion H; auto.
+  destruct (TransformState.get_obj _ _ _ s o') as [ob'|]; try discriminate.
+  destruct (TransformState.data_ref _ _ _ s ob'); try discriminate. inversion H; auto.
+Qed.
+
+Lemma tag_view s' s2 k r g sg :
+  tens P G C s' = tens P G C s2 -> tag_of s' (mk_view P G C p0 fits s2 k r g sg) = (tval s2 r, g, sg).
+Proof.
+  intro E. unfold mk_view. destruct (fits k (tval s2 r) g); unfold TransformState.tag_of; cbn; auto.
+  unfold TransformState.tval. rewrite E. reflexivity.
+Qed.
+
 (* after update() the value tensor() returns is the state held before the call *)
 Lemma update1_then_tensor s o s1 :
   single s o -> update1 s o = Ok tt s1 ->
@@ -131,78 +153,65 @@ Proof.
   destruct (cfg_all_fields _ Hcf) as (_ & _ & _ & _ & _ & _ & Htu & Hup & _ & Huu & _).
   unfold single. intros Hs Hu t s2 Ht.
   destruct (get_obj s o) as [ob|] eqn:Hg; [|contradiction].
-  unfold TransformState.update1, with_obj in Hu. fold (get_obj s o) in Hu. rewrite Hg, Hup, Huu in Hu.
-  unfold bind at 1 in Hu.
+  unfold TransformState.update1, TransformState.with_obj in Hu. fold (get_obj s o) in Hu. rewrite Hg, Hup, Huu in Hu.
+  unfold TransformState.bind at 1 in Hu.
   match type of Hu with context [match ?m with Ok a s => _ | Er e s => Er e s end] => destruct m as [ob1 s1'|] eqn:Er end;
     try discriminate.
-  assert (R := refresh_ok s o ob ob1 s1' Hg).
   assert (Er' : match o_p P G C ob with
                 | Some _ => bind (fresh_data s ob) (fun r s1 => Ok (set_p P G C ob (Some r)) (set_obj s1 o (set_p P G C ob (Some r))))
                 | None => Ok ob s end = Ok ob1 s1').
   { destruct (o_p P G C ob); exact Er. }
-  destruct (R Er') as (Hg1 & Hk & Hgr & Hiv & Hsrc). clear R Er Er'.
+  destruct (refresh_ok s o ob ob1 s1' Hg Er') as (Hg1 & Hk & Hgr & Hiv & Hsrc). clear Er Er'.
   unfold src_ok in Hsrc.
-  destruct (o_kind P G C ob) eqn:Ek; try congruence; rewrite Hk in Hu.
-  all: try (unfold bind in Hu; destruct (data_ref s1' ob1) as [r s2'|] eqn:Ed; try discriminate;
-            destruct (Hsrc _ _ eq_refl) as [-> Hv]; clear Hsrc).
-  all: unfold TransformState.tensor1, with_obj in Ht; fold (get_obj s1 o) in Ht.
-  - (* KDisp *)
-    cbn [is_spline andb] in Hu. inversion Hu; subst s1; clear Hu.
-    rewrite (get_set_same _ _ _ _ Hg1) in Ht. cbn in Ht. rewrite Hk in Ht.
-    destruct ob1; cbn in *. subst.
-    unfold held in *. rewrite Hg in *. unfold sign_of in *. cbn in *. rewrite Ek in *. cbn in *.
-    destruct (get_params s _) as [[| r' ip | f | o']|]; try contradiction.
-    all: unfold mk_view in Ht; match type of Ht with context [if ?c then _ else _] => destruct c end;
-      inversion Ht; subst; cbn.
-    all: try (destruct (TransformState.get_obj _ _ _ s o') as [ob'|]; [|contradiction];
-              destruct (TransformState.data_ref _ _ _ s ob'); [|contradiction]).
-    all: unfold TransformState.tag_of; cbn; unfold TransformState.tval in *; cbn in *; congruence.
-  - (* KSvf *)
-    cbn [is_spline andb] in Hu. inversion Hu; subst s1; clear Hu.
-    rewrite (get_set_same _ _ _ _ Hg1) in Ht. cbn in Ht. rewrite Hk in Ht.
-    destruct ob1; cbn in *. subst.
-    unfold held in *. rewrite Hg in *. unfold sign_of in *. cbn in *. rewrite Ek in *. cbn in *.
-    destruct (get_params s _) as [[| r' ip | f | o']|]; try contradiction.
-    all: inversion Ht; subst; cbn.
-    all: try (destruct (TransformState.get_obj _ _ _ s o') as [ob'|]; [|contradiction];
-              destruct (TransformState.data_ref _ _ _ s ob'); [|contradiction]).
-    all: unfold TransformState.tag_of; cbn; unfold TransformState.tval in *; cbn in *; congruence.
-  - (* KFfd *)
-    cbn [is_spline andb] in Hu.
-    destruct (negb (spline_ok (o_grid P G C ob1))); try discriminate.
-    destruct (negb (fits KFfd (tval s1' r) (o_grid P G C ob1))); try discriminate.
-    inversion Hu; subst s1; clear Hu.
-    rewrite (get_set_same _ _ _ _ Hg1) in Ht. cbn in Ht. rewrite Hk in Ht.
-    destruct ob1; cbn in *. subst.
-    unfold held in *. rewrite Hg in *. unfold sign_of in *. cbn in *. rewrite Ek in *. cbn in *.
-    destruct (get_params s _) as [[| r' ip | f | o']|]; try contradiction.
-    all: inversion Ht; subst; cbn.
-    all: try (destruct (TransformState.get_obj _ _ _ s o') as [ob'|]; [|contradiction];
-              destruct (TransformState.data_ref _ _ _ s ob'); [|contradiction]).
-    all: unfold TransformState.tag_of; cbn; unfold TransformState.tval in *; cbn in *; congruence.
-  - (* KSvffd *)
-    cbn [is_spline andb] in Hu.
-    destruct (negb (spline_ok (o_grid P G C ob1))); try discriminate.
-    destruct (negb (fits KSvffd (tval s1' r) (o_grid P G C ob1))); try discriminate.
-    inversion Hu; subst s1; clear Hu.
-    rewrite (get_set_same _ _ _ _ Hg1) in Ht. cbn in Ht. rewrite Hk in Ht.
-    destruct ob1; cbn in *. subst.
-    unfold held in *. rewrite Hg in *. unfold sign_of in *. cbn in *. rewrite Ek in *. cbn in *.
-    destruct (get_params s _) as [[| r' ip | f | o']|]; try contradiction.
-    all: inversion Ht; subst; cbn.
-    all: try (destruct (TransformState.get_obj _ _ _ s o') as [ob'|]; [|contradiction];
-              destruct (TransformState.data_ref _ _ _ s ob'); [|contradiction]).
-    all: unfold TransformState.tag_of; cbn; unfold TransformState.tval in *; cbn in *; congruence.
+  assert (Hfin : forall r, data_ref s1' ob1 = Ok r s1' ->
+                 forall sg, sg = sign_of P G C ob -> held s o = Some (tval s1' r, o_grid P G C ob1, sg)).
+  { intros r Ed sg ->. destruct (Hsrc _ _ Ed) as [_ Hv].
+    destruct (held s o) as [[[p g] sg]|] eqn:Eh; [|contradiction].
+    destruct (held_shape _ _ _ _ _ _ Hg Eh) as [-> ->]. subst p. rewrite Hgr. reflexivity. }
+  unfold TransformState.tensor1, TransformState.with_obj in Ht. fold (get_obj s1 o) in Ht.
+  assert (Hsg : sign_of P G C ob = if invertible (o_kind P G C ob) then o_inv P G C ob1 else false).
+  { unfold sign_of. rewrite Hiv. reflexivity. }
+  destruct (o_kind P G C ob) eqn:Ek; try congruence; rewrite Hk in Hu; cbn in Hsg.
+  all: try (unfold TransformState.bind in Hu; destruct (data_ref s1' ob1) as [r s2'|] eqn:Ed; try discriminate;
+            destruct (Hsrc _ _ eq_refl) as [-> _]; cbn [is_spline andb] in Hu;
+            repeat match type of Hu with context [if ?c then _ else _] => destruct c; try discriminate end;
+            injection Hu as <-;
+            rewrite (get_set_same _ _ _ _ Hg1) in Ht;
+            rewrite kind_set_uv, Hk, u_set_uv in Ht;
+            injection Ht as <- _).
+  - (* KDisp *) rewrite tag_view by reflexivity. apply Hfin; auto.
+  - (* KSvf *) unfold TransformState.tag_of; cbn. rewrite <- Hsg. apply Hfin; auto.
+  - (* KFfd *) unfold TransformState.tag_of; cbn. apply Hfin; auto.
+  - (* KSvffd *) unfold TransformState.tag_of; cbn. rewrite <- Hsg. apply Hfin; auto.
   - (* KLin *)
-    inversion Hu; subst s1; clear Hu.
-    rewrite Hg1 in Ht. rewrite Hk in Ht. unfold bind in Ht.
+    injection Hu as <-. rewrite Hg1, Hk in Ht. unfold TransformState.bind in Ht.
     destruct (data_ref s1' ob1) as [r s2'|] eqn:Ed; try discriminate.
-    destruct (Hsrc _ _ eq_refl) as [-> Hv]. inversion Ht; subst; clear Ht.
-    unfold held in *. rewrite Hg in *. unfold sign_of in *. rewrite Ek in *. cbn in *.
-    destruct (get_params s ob) as [[| r' ip | f | o']|]; try contradiction.
-    all: try (destruct (TransformState.get_obj _ _ _ s o') as [ob'|]; [|contradiction];
-              destruct (TransformState.data_ref _ _ _ s ob'); [|contradiction]).
-    all: congruence.
+    destruct (Hsrc _ _ eq_refl) as [-> _]. injection Ht as <- _. rewrite <- Hsg. apply Hfin; auto.
+Qed.
+
+Lemma update1_keeps s o s1 ob :
+  get_obj s o = Some ob -> update1 s o = Ok tt s1 ->
+  exists ob1, get_obj s1 o = Some ob1 /\ o_kind P G C ob1 = o_kind P G C ob.
+Proof.
+  destruct (cfg_all_fields _ Hcf) as (_ & _ & _ & _ & _ & _ & Htu & Hup & _ & Huu & _).
+  intros Hg Hu.
+  unfold TransformState.update1, TransformState.with_obj in Hu. fold (get_obj s o) in Hu. rewrite Hg, Hup, Huu in Hu.
+  unfold TransformState.bind at 1 in Hu.
+  match type of Hu with context [match ?m with Ok a s => _ | Er e s => Er e s end] => destruct m as [ob1 s1'|] eqn:Er end;
+    try discriminate.
+  assert (Er' : match o_p P G C ob with
+                | Some _ => bind (fresh_data s ob) (fun r s1 => Ok (set_p P G C ob (Some r)) (set_obj s1 o (set_p P G C ob (Some r))))
+                | None => Ok ob s end = Ok ob1 s1').
+  { destruct (o_p P G C ob); exact Er. }
+  destruct (refresh_ok s o ob ob1 s1' Hg Er') as (Hg1 & Hk & Hgr & Hiv & Hsrc). clear Er Er'.
+  unfold src_ok in Hsrc.
+  destruct (o_kind P G C ob1) eqn:Ek1.
+  all: try (unfold TransformState.bind in Hu; destruct (data_ref s1' ob1) as [r s2'|] eqn:Ed; try discriminate;
+            destruct (Hsrc _ _ eq_refl) as [-> _]; cbn [is_spline andb] in Hu;
+            repeat match type of Hu with context [if ?c then _ else _] => destruct c; try discriminate end;
+            injection Hu as <-; eexists; split; [apply (get_set_same _ _ _ _ Hg1)|];
+            rewrite kind_set_uv; congruence).
+  all: injection Hu as <-; exists ob1; split; congruence.
 Qed.
 
 Theorem call_is_fresh s o l s' :
@@ -212,38 +221,16 @@ Proof.
   intros Hs Hc. unfold TransformState.call in Hc. rewrite Hh in Hc.
   pose proof Hs as Hs'. unfold single in Hs'.
   destruct (get_obj s o) as [ob|] eqn:Hg; [|contradiction].
-  unfold TransformState.update, with_obj in Hc. fold (get_obj s o) in Hc. rewrite Hg in Hc.
+  unfold TransformState.update, TransformState.with_obj in Hc. fold (get_obj s o) in Hc. rewrite Hg in Hc.
   assert (Hu : exists s1, update1 s o = Ok tt s1 /\ forward s1 o = Ok l s').
   { destruct (o_kind P G C ob) eqn:Ek; try congruence;
-    unfold bind in Hc; destruct (update1 s o) as [[] s1|] eqn:Eu; try discriminate; eauto. }
+    unfold TransformState.bind in Hc; destruct (update1 s o) as [[] s1|] eqn:Eu; try discriminate; eauto. }
   destruct Hu as (s1 & Hu & Hf).
-  (* the object is still there, with the same kind *)
-  assert (Hk1 : exists ob1, get_obj s1 o = Some ob1 /\ o_kind P G C ob1 = o_kind P G C ob).
-  { unfold TransformState.forward, with_obj in Hf. fold (get_obj s1 o) in Hf.
-    destruct (get_obj s1 o) as [ob1|] eqn:Hg1; try discriminate. exists ob1. split; auto.
-    (* kinds never change in update1 *)
-    clear Hf. unfold TransformState.update1, with_obj in Hu. fold (get_obj s o) in Hu. rewrite Hg in Hu.
-    unfold bind at 1 in Hu.
-    match type of Hu with context [match ?m with Ok a s => _ | Er e s => Er e s end] => destruct m as [obx sx|] eqn:Er end;
-      try discriminate.
-    assert (Er' : match o_p P G C ob with
-                  | Some _ => bind (fresh_data s ob) (fun r s1 => Ok (set_p P G C ob (Some r)) (set_obj s1 o (set_p P G C ob (Some r))))
-                  | None => Ok ob s end = Ok obx sx).
-    { destruct (o_p P G C ob); destruct (c_update_p cf) eqn:E; try exact Er.
-      all: destruct (cfg_all_fields _ Hcf) as (_ & _ & _ & _ & _ & _ & _ & Hup & _); congruence. }
-    destruct (refresh_ok s o ob obx sx Hg Er') as (Hgx & Hkx & _).
-    destruct (o_kind P G C obx) eqn:Ekx.
-    all: try (unfold bind in Hu; destruct (data_ref sx obx) as [r s2'|] eqn:Ed; try discriminate;
-              repeat match type of Hu with context [if ?c then _ else _] => destruct c; try discriminate end;
-              inversion Hu; subst s1;
-              try (rewrite (get_set_same _ _ _ _ Hgx) in Hg1; inversion Hg1; subst; destruct obx; cbn in *; congruence);
-              try (rewrite Hgx in Hg1; inversion Hg1; subst; congruence)).
-    all: inversion Hu; subst s1; rewrite Hgx in Hg1; inversion Hg1; subst; congruence. }
-  destruct Hk1 as (ob1 & Hg1 & Hk1).
-  unfold TransformState.forward, with_obj in Hf. fold (get_obj s1 o) in Hf. rewrite Hg1, Hk1 in Hf.
+  destruct (update1_keeps _ _ _ _ Hg Hu) as (ob1 & Hg1 & Hk1).
+  unfold TransformState.forward, TransformState.with_obj in Hf. fold (get_obj s1 o) in Hf. rewrite Hg1, Hk1 in Hf.
   destruct (o_kind P G C ob) eqn:Ek; try congruence.
-  all: unfold bind in Hf; destruct (tensor1 s1 o) as [t s2|] eqn:Et; try discriminate;
-    inversion Hf; subst; exists t; split; auto;
+  all: unfold TransformState.bind in Hf; destruct (tensor1 s1 o) as [t s2|] eqn:Et; try discriminate;
+    injection Hf as <- _; exists t; split; auto;
     eapply update1_then_tensor; eauto.
 Qed.
 
